@@ -4,7 +4,8 @@ From Memchr Require Import Mem.BytewiseProofs.
 From Coq Require Import ZArith ZifyN ZifyNat Lia.
 
 (* loads: haystack loads inside the haystack, needle loads inside the needle, none marked aligned *)
-Definition rk_ok (h x : list N) (e : event) : Prop := load_ok 0 (length h) 0 (length x) e.
+(* acceptable wherever the two slices are placed (no Rabin-Karp load is marked aligned) *)
+Definition rk_ok (h x : list N) (e : event) : Prop := forall a an, load_ok a (length h) an (length x) e.
 
 (* ------------------------------------------------------------------ *)
 (* Hash algebra, modulo rk_mod = 2^32 *)
@@ -128,11 +129,11 @@ Lemma ev_within_rk_ok h x cur e :
   ev_within RHay cur RNeedle 0 (length x) e -> rk_ok h x e.
 Proof.
   intros Hb. destruct e as [r off w al| | |]; cbn; try tauto.
-  intros [-> [(-> & H1 & H2)|(-> & H1 & H2)]]; (split; [lia|discriminate]).
+  intros [-> [(-> & H1 & H2)|(-> & H1 & H2)]] a an; cbn; (split; [lia|discriminate]).
 Qed.
 
 Lemma rk_ok_hay h x off : off + 1 <= length h -> rk_ok h x (Load RHay off 1 false).
-Proof. intros H. cbn. split; [exact H|discriminate]. Qed.
+Proof. intros H a an. cbn. split; [exact H|discriminate]. Qed.
 
 Section Loops.
 Variables (f : rkfinder) (x h : list N).
